@@ -407,3 +407,4 @@ mutantN('C07-class-level-coefficients', 'C07', 'R07.j', [
     (DOMF2, "    def __init__(self,length,dr=None,dk=None):", "    DST_coeffs = {}\n\n    def __init__(self,length,dr=None,dk=None):"),
     (DOMF2, "        self.DST_II_coeffs = ", "        self.DST_coeffs[2] = self.DST_II_coeffs = "),
     (DOMF2, "        return dst(self.DST_II_coeffs*array,type=2)/self.k", "        return dst(self.DST_coeffs[2]*array,type=2)/self.k")])
+mutant('C09-msa-length-assert-inverted', ['C09', 'C01'], 'R09.d', MSAF, "assert len(gamma) == len(self.potential),'Domain mismatch!'", "assert len(gamma) != len(self.potential),'Domain mismatch!'")
